@@ -1,1 +1,314 @@
-pub fn run(_a: &vcommon::Args) {}
+//! C14 — Frame decoding is memory-bounded and chunking-independent.
+//!
+//! (a) allocation accounting around `Deserializer<_, Frame>::deserialize_next` with the counting
+//! global allocator: largest single request and peak live bytes must stay below
+//! 256 KiB + 4 x (bytes received); declared lengths >= 1 MiB run in a child process whose allocator
+//! refuses requests above 64 MiB (an abort of the child is the observation).
+//! (b) the encoding of frame sequences split at arbitrary points decodes to exactly those frames.
+//! (c) a frame whose declared payload is fully present but does not decode is an error, never
+//! "need more data".
+use radicle_node::deserializer::Deserializer;
+use radicle_node::prelude::{Message, Timestamp};
+use radicle_node::service::filter::Filter;
+use radicle_node::service::message::{Ping, Subscribe, ZeroBytes};
+use radicle_node::wire::verif::{Control, Frame, StreamId};
+use radicle_node::{wire, Link};
+use vcommon::{alloc, guarded, hex, json, unhex, Args, Reporter, Rng};
+
+const C0: u64 = 256 * 1024;
+const K: u64 = 4;
+const INBOX: usize = 1024 * 1024 * 2;
+
+fn varint(x: u64, width: u8) -> Vec<u8> {
+    match width {
+        1 => vec![x as u8 & 0x3f],
+        2 => ((0b01u16 << 14) | (x as u16 & 0x3fff)).to_be_bytes().to_vec(),
+        4 => ((0b10u32 << 30) | (x as u32 & 0x3fff_ffff)).to_be_bytes().to_vec(),
+        _ => ((0b11u64 << 62) | (x & ((1 << 62) - 1))).to_be_bytes().to_vec(),
+    }
+}
+
+fn min_width(x: u64) -> u8 {
+    if x < 1 << 6 { 1 } else if x < 1 << 14 { 2 } else if x < 1 << 30 { 4 } else { 8 }
+}
+
+fn header(stream: u64) -> Vec<u8> {
+    let mut v = vec![b'r', b'a', b'd', 1];
+    v.extend(varint(stream, min_width(stream)));
+    v
+}
+
+/// Decode everything currently decodable; returns frames and the terminal condition.
+fn drain(d: &mut Deserializer<INBOX, Frame>) -> (Vec<Frame>, Result<(), String>) {
+    let mut out = vec![];
+    loop {
+        match d.deserialize_next() {
+            Ok(Some(f)) => out.push(f),
+            Ok(None) => return (out, Ok(())),
+            Err(e) => return (out, Err(e.to_string())),
+        }
+    }
+}
+
+fn measure(bytes: &[u8]) -> (alloc::Stats, String) {
+    let mut d = Deserializer::<INBOX, Frame>::new(INBOX.min(65536));
+    let _ = d.input(bytes);
+    alloc::reset();
+    let r = d.deserialize_next();
+    let st = alloc::stop();
+    let outcome = match r {
+        Ok(Some(_)) => "frame".to_string(),
+        Ok(None) => "incomplete".to_string(),
+        Err(e) => format!("error: {e}"),
+    };
+    (st, outcome)
+}
+
+fn memory_case(rep: &mut Reporter, bytes: Vec<u8>, declared: u64, supplied: usize, what: &str) {
+    rep.eval();
+    let received = bytes.len() as u64;
+    let bound = C0 + K * received;
+    let w = |extra: vcommon::Value| json!({"bytes_hex": hex(&bytes), "declared_payload_length": declared, "payload_bytes_supplied": supplied, "bytes_received": received, "bound": bound, "what": what, "detail": extra});
+    if declared >= 1 << 20 {
+        rep.count("memory.child-process-cases");
+        // child process: allocator refuses > 64 MiB
+        let exe = std::env::current_exe().unwrap();
+        let out = std::process::Command::new(exe).args(["C14", "--mode", "child", &hex(&bytes)]).output();
+        match out {
+            Err(e) => rep.inconclusive("could not spawn child", json!({"e": e.to_string()})),
+            Ok(o) => {
+                let stderr = String::from_utf8_lossy(&o.stderr).to_string();
+                let stdout = String::from_utf8_lossy(&o.stdout).to_string();
+                if let Some(line) = stderr.lines().find(|l| l.starts_with("VERIF-ALLOC-REFUSED")) {
+                    let n: u64 = line.split_whitespace().nth(1).and_then(|x| x.parse().ok()).unwrap_or(0);
+                    rep.violation("C14/allocation-sized-by-declared-length-before-data-arrives", w(json!({"requested_bytes": n, "child_status": format!("{:?}", o.status)})));
+                } else if !o.status.success() {
+                    rep.violation("C14/decoder-process-died", w(json!({"child_status": format!("{:?}", o.status), "stderr": stderr.chars().take(400).collect::<String>()})));
+                } else if let Ok(v) = serde_json::from_str::<vcommon::Value>(stdout.trim()) {
+                    let largest = v["largest"].as_u64().unwrap_or(0);
+                    let peak = v["peak"].as_u64().unwrap_or(0);
+                    if largest > bound || peak > bound {
+                        rep.violation("C14/allocation-sized-by-declared-length-before-data-arrives", w(json!({"largest_request": largest, "peak_live": peak, "outcome": v["outcome"]})));
+                    }
+                } else {
+                    rep.inconclusive("child output unreadable", json!({"stdout": stdout}));
+                }
+            }
+        }
+    } else {
+        let (st, outcome) = measure(&bytes);
+        rep.max("observed-largest-request", st.largest);
+        if st.largest > bound || st.peak > bound {
+            rep.violation("C14/allocation-sized-by-declared-length-before-data-arrives", w(json!({"largest_request": st.largest, "peak_live": st.peak, "outcome": outcome})));
+        }
+    }
+    if (supplied as u64) < declared {
+        rep.count("memory.cases-with-declared-length-larger-than-supplied");
+        rep.nontrivial(vcommon::fnv(&bytes));
+    }
+}
+
+fn sample_messages(rng: &mut Rng) -> Message {
+    match rng.below(4) {
+        0 => Message::Ping(Ping { ponglen: rng.below(100) as u16, zeroes: ZeroBytes::new(rng.below(40) as u16) }),
+        1 => Message::Pong { zeroes: ZeroBytes::new(rng.below(300) as u16) },
+        2 => Message::Subscribe(Subscribe { filter: Filter::default(), since: Timestamp::try_from(rng.below(1 << 40)).unwrap(), until: Timestamp::MAX }),
+        _ => {
+            let r = crate::svc::Remote::new(rng.below(6) as u8);
+            match rng.below(2) {
+                0 => r.node_announcement(1_700_000_000_000 + rng.below(1000)).into(),
+                _ => r.inventory_announcement(1_700_000_000_000 + rng.below(1000), &[]).into(),
+            }
+        }
+    }
+}
+
+fn gen_frame(rng: &mut Rng) -> Frame {
+    let link = if rng.bool() { Link::Inbound } else { Link::Outbound };
+    match rng.below(6) {
+        0 => Frame::control(link, Control::Open { stream: StreamId::git(link).nth(rng.below(1000)).unwrap() }),
+        1 => Frame::control(link, if rng.bool() { Control::Close { stream: StreamId::git(link) } } else { Control::Eof { stream: StreamId::git(link).nth(rng.below(1 << 30)).unwrap() } }),
+        2 | 3 => {
+            let n = *rng.pick(&[0usize, 1, 2, 63, 64, 65, 300, 16383, 16384, 20000]);
+            let n = if n > 300 && rng.chance(2, 3) { rng.usize(300) } else { n };
+            Frame::git(StreamId::git(link).nth(rng.below(100)).unwrap(), rng.bytes(n))
+        }
+        _ => Frame::gossip(link, sample_messages(rng)),
+    }
+}
+
+fn chunk_case(rep: &mut Reporter, rng: &mut Rng, exhaustive_splits: bool) {
+    let n = 1 + rng.usize(4);
+    let frames: Vec<Frame> = (0..n).map(|_| gen_frame(rng)).collect();
+    let mut bytes = vec![];
+    for f in &frames {
+        bytes.extend(f.to_bytes());
+    }
+    let splits: Vec<Vec<usize>> = if exhaustive_splits && bytes.len() <= 600 {
+        (1..bytes.len()).map(|i| vec![i]).collect()
+    } else {
+        (0..12)
+            .map(|_| {
+                let k = 1 + rng.usize(6);
+                let mut v: Vec<usize> = (0..k).map(|_| 1 + rng.usize(bytes.len().max(2) - 1)).collect();
+                v.sort();
+                v.dedup();
+                v
+            })
+            .chain(std::iter::once((1..bytes.len()).collect())) // byte by byte
+            .collect()
+    };
+    for cut in splits {
+        rep.eval();
+        rep.count("chunking.split-variants");
+        let mut d = Deserializer::<INBOX, Frame>::new(65536);
+        let mut got: Vec<Frame> = vec![];
+        let mut prev = 0;
+        let mut err = None;
+        for c in cut.iter().copied().chain(std::iter::once(bytes.len())) {
+            if c <= prev {
+                continue;
+            }
+            let _ = d.input(&bytes[prev..c]);
+            prev = c;
+            let (fs, r) = drain(&mut d);
+            got.extend(fs);
+            if let Err(e) = r {
+                err = Some(e);
+                break;
+            }
+        }
+        let w = || json!({"frames": frames.iter().map(|f| format!("{f:?}").chars().take(200).collect::<String>()).collect::<Vec<_>>(), "bytes_hex": hex(&bytes[..bytes.len().min(800)]), "split_points": cut, "decoded": got.len()});
+        if let Some(e) = err {
+            rep.violation("C14/chunking/valid-frames-rejected", json!({"error": e, "case": w()}));
+            return;
+        }
+        if got != frames {
+            rep.violation("C14/chunking/decoded-frames-differ-from-sent-frames", w());
+            return;
+        }
+        if !d.is_empty() {
+            rep.violation("C14/chunking/bytes-left-over-after-all-frames", w());
+            return;
+        }
+    }
+    rep.nontrivial(vcommon::fnv(&bytes));
+    if rep.wants_sample() && n >= 3 {
+        rep.sample(json!({"frames": frames.iter().map(|f| format!("{f:?}").chars().take(120).collect::<String>()).collect::<Vec<_>>(), "total_bytes": bytes.len()}));
+    }
+}
+
+fn invalid_inner_case(rep: &mut Reporter, rng: &mut Rng) {
+    // a complete gossip frame around a truncated / damaged message
+    let msg = sample_messages(rng);
+    let full = wire::serialize(&msg);
+    let link = if rng.bool() { Link::Inbound } else { Link::Outbound };
+    let stream: u64 = StreamId::gossip(link).into();
+    for cut in 0..full.len() {
+        if full.len() > 64 && !rng.chance(1, 4) && cut > 8 && cut + 8 < full.len() {
+            continue;
+        }
+        rep.eval();
+        let inner = &full[..cut];
+        let mut bytes = header(stream);
+        bytes.extend(varint(inner.len() as u64, min_width(inner.len() as u64)));
+        bytes.extend(inner);
+        // followed by a valid frame
+        let next = Frame::<Message>::git(StreamId::git(link), vec![1, 2, 3]);
+        let mut all = bytes.clone();
+        all.extend(next.to_bytes());
+        let mut d = Deserializer::<INBOX, Frame>::new(65536);
+        let _ = d.input(&all);
+        let r = guarded(|| d.deserialize_next());
+        rep.count("invalid-inner.complete-frame-with-truncated-message");
+        match r {
+            Err(p) => {
+                rep.violation(&format!("C14/panic/{}", vcommon::panic_site(&p)), json!({"bytes_hex": hex(&all), "panic": p}));
+                return;
+            }
+            Ok(Ok(None)) => {
+                rep.violation("C14/complete-frame-with-truncated-message-reported-as-incomplete", json!({"bytes_hex": hex(&all), "message": format!("{msg:?}").chars().take(200).collect::<String>(), "inner_truncated_to": cut, "inner_full_length": full.len()}));
+                return;
+            }
+            Ok(Ok(Some(_))) => rep.count("invalid-inner.truncation-still-decodes"),
+            Ok(Err(_)) => rep.count("invalid-inner.reported-as-error"),
+        }
+    }
+}
+
+pub fn run(args: &Args) {
+    if args.mode.as_deref() == Some("child") {
+        // child: decode the given bytes under an allocator that refuses > 64 MiB
+        let bytes = unhex(&args.rest.first().cloned().unwrap_or_default()).unwrap_or_default();
+        alloc::set_limit(64 << 20);
+        let (st, outcome) = measure(&bytes);
+        println!("{}", json!({"largest": st.largest, "peak": st.peak, "outcome": outcome}));
+        return;
+    }
+    let mut rep = Reporter::new("C14");
+    if let Some(path) = &args.replay {
+        let w = vcommon::load_replay(path);
+        if let Some(h) = w["bytes_hex"].as_str() {
+            let b = unhex(h).unwrap();
+            let declared = w["declared_payload_length"].as_u64().unwrap_or(0);
+            if w.get("declared_payload_length").is_some() {
+                memory_case(&mut rep, b, declared, w["payload_bytes_supplied"].as_u64().unwrap_or(0) as usize, "replay");
+            } else {
+                rep.eval();
+                let mut d = Deserializer::<INBOX, Frame>::new(65536);
+                let _ = d.input(&b);
+                if let Ok(None) = d.deserialize_next() {
+                    rep.violation("C14/complete-frame-with-truncated-message-reported-as-incomplete", json!({"bytes_hex": h}));
+                }
+            }
+        }
+        rep.finish();
+        return;
+    }
+    // (a) memory: all widths x declared lengths x supplied bytes (deterministic; sharded)
+    let lengths: [u64; 14] = [0, 1, 63, 64, 16383, 16384, 65535, 300_000, (1 << 20) - 1, 1 << 20, (1 << 30) - 1, 1 << 30, 1 << 40, (1 << 62) - 1];
+    let mut idx = 0u64;
+    let mut rng = Rng::new(vcommon::mix(args.seed, "C14", args.shard));
+    for kind in [0b010u64, 0b011, 0b100, 0b101, 0b100 | (5 << 3)] {
+        for &l in &lengths {
+            for width in [1u8, 2, 4, 8] {
+                if width < min_width(l) {
+                    continue;
+                }
+                let supplies: Vec<usize> = if l >= 1 << 20 { vec![0, 1, 7, 40] } else { vec![0, 1, 2, 5, 17, 40] };
+                for s in supplies {
+                    idx += 1;
+                    if idx % args.shards != args.shard {
+                        continue;
+                    }
+                    let mut b = header(kind);
+                    b.extend(varint(l, width));
+                    let s = s.min(l as usize);
+                    b.extend(rng.bytes(s));
+                    memory_case(&mut rep, b, l, s, "header + declared length + partial payload");
+                }
+            }
+        }
+    }
+    // random length prefixes
+    for k in 0..args.budget(2_000, 60_000) {
+        let mut r = Rng::new(args.case_seed(k));
+        let l = match r.below(4) { 0 => r.below(1 << 20), 1 => r.below(1 << 14), 2 => r.below(64), _ => (1 << 19) + r.below(1 << 19) };
+        let mut b = header(*r.pick(&[0b010u64, 0b011, 0b100, 0b101]));
+        b.extend(varint(l, *r.pick(&[min_width(l), 8])));
+        let s = r.usize(41).min(l as usize);
+        b.extend(r.bytes(s));
+        memory_case(&mut rep, b, l, s, "random declared length");
+    }
+    // (b) chunking
+    for k in 0..args.budget(1_600, 60_000) {
+        let mut r = Rng::new(args.case_seed(1_000_000 + k));
+        chunk_case(&mut rep, &mut r, k % 4 == 0);
+    }
+    // (c) invalid inner message inside a complete frame
+    for k in 0..args.budget(800, 20_000) {
+        let mut r = Rng::new(args.case_seed(2_000_000 + k));
+        invalid_inner_case(&mut rep, &mut r);
+    }
+    rep.finish();
+}
